@@ -293,6 +293,22 @@ func propC12(g *G, n int) {
 func propC19canon(g *G, n int) {
 	for i := 0; i < n; i++ {
 		x := g.decimal()
+		var yPow *dec
+		switch i % 6 { // also the argument regions in which the elementary functions do real work
+		case 1:
+			x = g.expArg()
+		case 2:
+			x = g.logArg()
+		case 3:
+			x = g.log1pArg()
+		case 4:
+			px, py := g.powPair()
+			x, yPow = px, &py
+		}
+		if _, c, _, sp := decode(x); !sp && c.BitLen() > 100 && g.chance(0.7) {
+			// a full-length coefficient has no other encoding: shorten it
+			x = g.shorten(x)
+		}
 		co := cohort(x)
 		for _, m := range co {
 			emit(0, "Decimal.Canonical", []string{m.String()})
@@ -300,6 +316,9 @@ func propC19canon(g *G, n int) {
 		// a battery of value-determined operations on a few encodings of the same value: every line is judged
 		// against the Spec, which depends on the value only, so an encoding-dependent result shows on some member
 		y := g.related(x)
+		if yPow != nil {
+			y = *yPow
+		}
 		mode := sU64(uint64(g.mode()))
 		dp := sI64(g.dpFor(x))
 		for k := 0; k < 4 && k < len(co); k++ {
@@ -326,6 +345,42 @@ func propC19canon(g *G, n int) {
 			apiCall(0, "api.Decompose", []string{ms, fmt.Sprint([]int{-1, 0, 8, 16, 40}[g.pick(5)])})
 			apiCall(0, "api.Int", []string{ms, []string{"nil", "12345", "-7"}[g.pick(3)]})
 			apiCall(0, "api.Rat", []string{ms, []string{"nil", "set"}[g.pick(2)]})
+		}
+		// the same value in two encodings through every exported operation that takes a Decimal: the two results
+		// must have the same class, sign and numeric value (elementary functions are only bracketed by the Spec, so
+		// they are compared with each other here)
+		m1, m2 := co[g.pick(len(co))], co[g.pick(len(co))]
+		if i%2 == 0 {
+			m1, m2 = co[0], co[len(co)-1]
+		}
+		if m1 != m2 {
+			drm := g.drm()
+			same := func(op string, pos int, rest ...string) {
+				apiCall(drm, "api.CohortSame", append([]string{op, fmt.Sprint(pos), m1.String(), m2.String()}, rest...))
+			}
+			for _, op := range []string{"Exp", "Exp2", "Exp10", "Expm1", "Log", "Log2", "Log10", "Log1p", "Sqrt", "Cbrt", "Abs", "Ceil", "Floor", "Round", "Trunc",
+				"Decimal.Neg", "Decimal.IsNaN", "Decimal.IsZero", "Decimal.Signbit", "Decimal.Sign", "Decimal.Float32", "Decimal.Float64", "Decimal.Int32_", "Decimal.Int64_",
+				"Decimal.Uint32", "Decimal.Uint64", "Decimal.Canonical", "Frexp", "Decimal.Payload_"} {
+				same(op, 0)
+			}
+			same("Decimal.IsInf", 0, sI64(int64(g.pick(3)-1)))
+			same("Ldexp", 0, sI64(g.i64()))
+			same("Decimal.Round", 0, dp, mode)
+			same("Decimal.Ceil", 0, dp)
+			same("Decimal.Floor", 0, dp)
+			ys := y.String()
+			for _, op := range []string{"Decimal.Add", "Decimal.Sub", "Decimal.Mul", "Decimal.Quo", "Decimal.QuoRem", "Decimal.Pow", "Decimal.Cmp", "Decimal.CmpAbs", "Decimal.Equal", "Compare", "Min", "Max"} {
+				same(op, 0, ys)
+				same(op, 1, ys)
+			}
+			same("Decimal.PowWithMode", 0, ys, mode)
+			same("Decimal.PowWithMode", 1, ys, mode)
+			// integer and simple exponents reach Pow's shortcut paths
+			for _, e := range []dec{g.smallIntDec(), g.decimal()} {
+				same("Decimal.PowWithMode", 0, e.String(), mode)
+			}
+			prec := sI64(int64(g.pick(45)))
+			same("Format", 0, sU64(uint64("eEfF"[g.pick(4)])), prec)
 		}
 	}
 }
